@@ -47,7 +47,49 @@ N = {
  'C19-B': ('SimpleClient.connect() resets the buffer after the handshake', 'events dispatched while the application is still inside connect()', 'C19: connect-time arrivals scenario'),
  'C20-A': ('pre_disconnect: is_connected() test outside the lock', 'two threads both pass the test before either marks', None),
  'C20-B': ('basic_disconnect releases the pending mark before leaving the rooms', 'a second terminating action in exactly that window', None),
+ # ---- second round (agents were told what had been used before) ----
+ 'C01-C': ('attachment buffer became a class-level (shared) list, cleared on completion', 'two binary packets reassembled at the same time (interleaved hand-back), or one abandoned half-way', 'C01: interleaved reassembly of 2-4 packets, one optionally abandoned (C05 caught it unchanged)'),
+ 'C01-D': ('"<n>-" omitted for binary-typed packets with zero attachments', 'Packet(binary=True) without bytes; only an independent reading of the wire format sees it', None),
+ 'C02-C': ('client: _binary_packet reset after the handler instead of before (try/finally refactor)', 'a binary event/ack whose handler is still running when the next frame is dispatched (task/thread per message)', 'C02: overlapping-callback scenario now carries byte strings (C09 catches it too)'),
+ 'C02-D': ('"too many attachments" guard compares the count (>10) instead of the digits', 'a message with 11 or more bytes leaves', None),
+ 'C03-C': ('basic_disconnect leaves the namespace room last (re-uses get_rooms)', 'threaded: enter_room(sid) from another thread while sid is being disconnected', 'C03: room join racing a disconnect under the controlled scheduler (this also exposed a genuine, narrower race of the pinned tree: known finding room-join-races-disconnect)'),
+ 'C03-D': ('refusal rollback moved into the non-always_connect branch', 'always_connect=True and a refusing connect handler: refused client stays in its rooms', 'C03: histories now contain connections refused by the connect handler (C04 and C11 caught it unchanged)'),
+ 'C04-C': ('basic_disconnect drops the whole pending list when called for a non-pending sid', 'asyncio: S1 disconnect suspended, another transport\'s CONNECT refused (rollback), second cause hits S1', 'C04 part (b): refused-other-transport actor'),
+ 'C04-D': ('pre_disconnect idempotent + is_connected pre-check dropped in _handle_disconnect (each harmless alone)', 'a second cause while the first is suspended in its handler / DISCONNECT write', None),
+ 'C05-C': ('server: _binary_packet entry deleted after the dispatch', 'a binary event whose dispatch raises (async_handlers off), then further events of that client', 'C05: handler-fault recovery scenario'),
+ 'C05-D': ('_get_event_handler hoists the namespace prefix (same idea as C13-B)', 'a non-matching function handler under the "*" namespace and a class-based namespace as target', 'C05: configurations with a specific handler under the "*" namespace (C13 caught it unchanged)'),
+ 'C06-C': ('call() timeout discards the callback and, if none is left, the client\'s whole callbacks dict (id counter restarts)', 'call() times out, another call/emit-with-callback, late ACK of the first arrives first', None),
+ 'C06-D': ('call() returns "result or None"', 'an ACK carrying exactly one falsy value', None),
+ 'C07-C': ('_handle_disconnect also pops callbacks[sid]', 'ack relay on the channel, the issuing host handles a disconnect request for that sid before consuming the relay', 'C07: ack-then-disconnect op (disconnect via the issuing or a third host while the acknowledgement is in flight)'),
+ 'C07-D': ('get_participants: one try/except around the whole union', 'emit to a list of rooms on a host that has no member of an earlier listed room', None),
+ 'C08-C': ('connect(): re-check of the namespace table after a timed-out wait dropped', 'the connect handler of the last accepted namespace runs longer than wait_timeout', 'C08: slow-connect-handler scenario (virtual time on asyncio, real threads + real Event on the threaded client)'),
+ 'C08-D': ('_handle_error clears connected whenever the namespace table is empty', 'wait=False, a non-default namespace refused before any acceptance, another accepted later', None),
+ 'C09-C': ('client: _binary_packet reset after the dispatch', 'binary handler still running / raising when the next packet is dispatched', 'C09: binary handler fault / overlap recovery'),
+ 'C09-D': ('client _get_event_handler elif (same as C13-A)', 'handler under the "*" namespace is the rightful target, the namespace has other handlers', 'C09: a specific handler under the "*" namespace (C13 caught it unchanged)'),
+ 'C10-C': ('_handle_eio_disconnect resets namespaces only "if self.connected"', 'transport lost inside the connect handler of a reconnection attempt (after the acknowledgements, before connect() returns)', 'C10: fault mode H (loss inside the connect handler of an attempt)'),
+ 'C10-D': ('_reconnect_task cleared whenever will_reconnect is False', 'namespace-level refusal during an attempt, then shutdown() in a later back-off (or a loss during a later handshake)', None),
+ 'C11-C': ('pre_disconnect appends to the pending list before knowing the sid is connected', 'always_connect=True, transport ends while the connect handler runs, handler then refuses, nobody else in the namespace', 'C11: refusal-race scenario (transport ends while the connect handler is suspended / blocked)'),
+ 'C11-D': ('Server.disconnect passes its ignore_queue argument through', 'message-queue manager + sio.disconnect(sid) on the owning host', 'C11: a quarter of the cases run on a pub/sub manager (C07 caught it unchanged); exposed the known finding pubsub-callback-for-departed-client-never-freed'),
+ 'C12-C': ('msgpack decoding through one shared class-level Unpacker', 'a frame that is not exactly one msgpack document, then a frame of another client', None),
+ 'C12-D': ('is_connected() simplified to "sid in rooms[namespace]" (None is a room name)', 'event for a namespace the sender never joined while somebody else is in it: handler runs with sid None', 'C12: a handler may only run on behalf of a session of the sender (C05 caught it unchanged)'),
+ 'C13-C': ('AsyncClient._trigger_event: CancelledError branch falls through to the class-based namespace', 'coroutine function handler that ends in CancelledError + class-based namespace implementing the event', 'C13: cancelled coroutine handlers'),
+ 'C13-D': ('server reserved_events gains connect_error', 'a client event literally named connect_error whose rightful target is a catch-all', 'C13: connect_error as an ordinary event name on servers'),
+ 'C14-C': ('AsyncClient._handle_disconnect bookkeeping in try/finally (threaded twin unchanged)', 'server DISCONNECT + application disconnect handler raises', None),
+ 'C14-D': ('AsyncPubSubManager.emit publishes before delivering locally', 'a fault in one half of the emit (unserialisable payload / publish fails)', 'C14 (P): emits whose local delivery or publication fails'),
+ 'C15-C': ('Redis _listen: unsubscribe moved into try/finally', 'asyncio: a payload forcing a restart; the abandoned generator is closed late and cancels the new subscription', 'C15: bundled Redis managers end to end on a fake broker that honours subscriptions'),
+ 'C15-D': ('Redis retry loop keeps listening on a local copy of the pubsub object', 'one dropped broker connection (the dead object keeps failing)', 'C15: fake connections stay dead once dropped'),
+ 'C16-C': ('get_session uses .get instead of .setdefault', 'never-saved session + two overlapping session() blocks', 'C16: nested session() blocks'),
+ 'C16-D': ('session() restores an entry-time snapshot when the block raises', 'a session() block left through an exception after a modification', 'C16: session() blocks left by an exception'),
+ 'C17-C': ('register_namespace stores the object before binding it', 'threaded: a CONNECT/event for that namespace handled between the two statements', 'C17: invariant hook on the registry (object must be bound when it becomes reachable)'),
+ 'C17-D': ('ClientNamespace.disconnect guarded by client.connected', 'helper called before connect() has finished (e.g. from on_connect)', None),
+ 'C18-C': ('admin _trigger_event: timestamp recorded after the connect handler', 'transport closes while the connect handler is blocked: KeyError in the disconnect branch, application disconnect handler skipped', None),
+ 'C18-D': ('admin _basic_leave_room indexes rooms[namespace][room] unprotected', 'application leave_room() for a room without members', None),
+ 'C19-C': ('disconnect handler also sets connected=False', 'temporary loss between connected_event.wait() returning and the read of self.connected', None),
+ 'C19-D': ('connection check factored into _wait_connected(): receive() loses its buffer re-check', 'event + final disconnection delivered before receive() reads connected', None),
+ 'C20-C': ('_handle_eio_disconnect iterates the live namespace view with a manager call per step', 'transport loss pre-empted while another thread removes the last member of a sibling namespace', None),
+ 'C20-D': ('is_connected rebuilt on eio_sid_from_sid (check-then-read on a half-dismantled table)', 'late thread evaluates is_connected while the winner is between two basic_leave_room calls', None),
 }
+
 
 
 def main():
